@@ -160,8 +160,11 @@ class Affine:
         # (sum, overflow) tuples
         if len(proj) == 1 and isinstance(proj[0], dict) and proj[0].get("f") == "0" and ("L", l) in st and "(" in self.b.local_ty(l):
             return st[("L", l)]
-        # a field of some aggregate in memory: named flow-insensitively
+        # a field of some aggregate in memory: the value last stored on this path, else named flow-insensitively
         e = self.sym.place(p)
+        fk = self._field_key(p)
+        if fk is not None and fk in st:
+            return st[fk]
         return Form.atom(("sym", render(e)))
 
     def _is_int(self, ty):
@@ -226,8 +229,17 @@ class Affine:
                 else:
                     new = {}
                     changed = False
+                    # an Option that is None on one incoming path constrains nothing: "if Some, payload == F" survives
+                    for k, v in list(so.items()):
+                        if k[0] == "opt" and k not in cur and ("optnone", k[1]) in cur:
+                            cur = dict(cur)
+                            cur[k] = v
                     for k, v in cur.items():
-                        if k in so and so[k] == v:
+                        if k[0] == "opt" and k not in so and ("optnone", k[1]) in so:
+                            new[k] = v
+                        elif k[0] == "optnone" and k not in so and ("opt", k[1]) in so:
+                            changed = True
+                        elif k in so and so[k] == v:
                             new[k] = v
                         else:
                             changed = True
@@ -239,17 +251,64 @@ class Affine:
                         self.state_in[succ] = new
                         work.append(succ)
 
+    def _field_key(self, pl):
+        """state key of an integer field reached through named fields of a local (flow-sensitive field stores):
+        ("F", owning local, "field.path")"""
+        proj = [e for e in pl["p"] if e != "deref"]
+        if not proj or not all(isinstance(e, dict) and "f" in e for e in proj):
+            return None
+        return ("F", self.root_local({"l": pl["l"], "p": []}), ".".join(str(e["f"]) for e in proj))
+
+    def field_form(self, st, base_pl, *names):
+        """form last stored into base_pl.<names> on this path, or None"""
+        proj = [e for e in base_pl["p"] if e != "deref"]
+        if not all(isinstance(e, dict) and "f" in e for e in proj):
+            return None
+        path = ".".join([str(e["f"]) for e in proj] + list(names))
+        return st.get(("F", self.root_local({"l": base_pl["l"], "p": []}), path))
+
     def _assign(self, st, s, bb, idx):
         pl = s["place"]
         rv = s["rv"]
         if pl["p"]:
+            fk = self._field_key(pl)
+            if fk is not None:
+                f = None
+                if "use" in rv:
+                    f = self.op_form(st, rv["use"])
+                elif "cast" in rv and rv.get("kind", "").startswith("IntToInt"):
+                    f = self.op_form(st, rv["cast"])
+                elif "bin" in rv and rv["bin"] in ("Add", "Sub"):
+                    a, bf = self.op_form(st, rv["a"]), self.op_form(st, rv["b"])
+                    if a is not None and bf is not None:
+                        f = a.add(bf) if rv["bin"] == "Add" else a.sub(bf)
+                # a store into a prefix/suffix of the place invalidates what was known below it
+                for k in [k for k in st if k[0] == "F" and k[1] == fk[1] and (k[2].startswith(fk[2] + ".") or fk[2].startswith(k[2] + "."))]:
+                    st.pop(k, None)
+                if f is not None:
+                    st[fk] = f
+                else:
+                    st.pop(fk, None)
+            elif not [e for e in pl["p"] if e != "deref"]:
+                # *ref = value: whole-object store through a reference
+                r = self.root_local({"l": pl["l"], "p": []})
+                for k in [k for k in st if k[0] == "F" and k[1] == r]:
+                    st.pop(k, None)
             return
         l = pl["l"]
         key = ("L", l)
+        # whole-local assignment: field facts of that local are gone
+        for k in [k for k in st if k[0] == "F" and k[1] == l]:
+            st.pop(k, None)
         f = None
+        st.pop(("optnone", l), None)
         if "use" in rv:
             f = self.op_form(st, rv["use"])
             p = op_place(rv["use"])
+            # payload of a checked sum:  _n = ((_opt as Some).0)
+            if p is not None and len(p["p"]) == 2 and isinstance(p["p"][0], dict) and p["p"][0].get("variant") == "Some" \
+                    and isinstance(p["p"][1], dict) and p["p"][1].get("i") == 0 and ("opt", p["l"]) in st:
+                f = st[("opt", p["l"])]
             if p is not None:
                 # propagate Option/Result wrappers:  _q = move (_b as Continue).0
                 if ("opt", p["l"]) in st and not p["p"]:
@@ -266,6 +325,9 @@ class Affine:
                     st[("len", ("L", l))] = st[("len", ("L", src))]
         elif "ref" in rv and not [e for e in rv["ref"]["p"] if e != "deref"]:
             f = self.place_form(st, rv["ref"])
+        elif "ref" in rv and len(rv["ref"]["p"]) == 2 and isinstance(rv["ref"]["p"][0], dict) and rv["ref"]["p"][0].get("variant") == "Some" \
+                and isinstance(rv["ref"]["p"][1], dict) and rv["ref"]["p"][1].get("i") == 0 and ("opt", rv["ref"]["l"]) in st:
+            f = st[("opt", rv["ref"]["l"])]     # `Some(ref n)` binding of a checked sum
         elif "cast" in rv:
             src = self.op_form(st, rv["cast"])
             tgt = rv["ty"]
@@ -293,6 +355,11 @@ class Affine:
             x = self.op_form(st, rv["ops"][0])
             if x is not None:
                 st[("some", l)] = x
+        elif "agg" in rv and rv["agg"] == "adt" and rv["adt"] == "std::option::Option" and rv["variant"] == "None":
+            st.pop(("opt", l), None)
+            st[("optnone", l)] = True
+            st.pop(key, None)
+            return
         if f is None:
             if self._is_int(self.b.local_ty(l)) or "(" in self.b.local_ty(l):
                 f = Form.atom(("v", l, bb, idx))
@@ -314,6 +381,16 @@ class Affine:
         dest = t["dest"]
         so = dict(st)
         args = t["args"]
+        # a callee that receives `&mut x` may store into x's fields
+        tys = t.get("arg_tys") or []
+        for ai, a in enumerate(args):
+            if ai < len(tys) and tys[ai].startswith("&mut"):
+                ap = op_place(a)
+                if ap is None:
+                    continue
+                r = self.root_local(ap)
+                for k in [k for k in so if k[0] == "F" and k[1] == r]:
+                    so.pop(k, None)
         if not dest["p"]:
             dl = dest["l"]
             self.call_info[dl] = (bb, t)
@@ -348,6 +425,8 @@ class Affine:
                     for kk in ("opt", "reslen"):
                         if (kk, p0["l"]) in st:
                             so[(kk, dl)] = st[(kk, p0["l"])]
+            elif c["path"] in self.facts.bodies and self._is_int(self.b.local_ty(dl)) and args:
+                f = self._callee_int_summary(st, c["path"], args)
             elif name in ("new",) and "Vec" in c["path"]:
                 so[("len", ("L", dl))] = Form.const(0)
             elif name == "with_capacity" and "Vec" in c["path"]:
@@ -403,6 +482,50 @@ class Affine:
         for s in b.succs(bb):
             outs.append((s, so if s == t["target"] else dict(st)))
         return outs
+
+    _SUMMARY_STACK = []
+
+    def _callee_int_summary(self, st, path, args):
+        """Value of a small in-crate integer-valued function as an affine form over its arguments and the lengths of
+        vectors/slices reachable from them (e.g. Message::serialized_len = 48 + len(self.query) + len(self.body)),
+        instantiated with this call's arguments.  Derived from the callee's own body; None when it is not that simple."""
+        if path in Affine._SUMMARY_STACK or len(Affine._SUMMARY_STACK) > 3:
+            return None
+        cb = self.facts.bodies[path]
+        if cb.kind not in ("fn", "method") or len(cb.blocks) > 40:
+            return None
+        Affine._SUMMARY_STACK.append(path)
+        try:
+            ca = Affine(cb, self.facts, self.summaries)
+        finally:
+            Affine._SUMMARY_STACK.pop()
+        forms = []
+        for rb in cb.return_blocks():
+            if rb not in cb.live_blocks():
+                continue
+            stc = ca._state_at_term(rb)
+            forms.append(stc.get(("L", 0)))
+        if not forms or any(f is None for f in forms) or any(f != forms[0] for f in forms[1:]):
+            return None
+        out = Form.const(forms[0].c)
+        for atom, co in forms[0].t.items():
+            inst = None
+            if atom[0] == "arg" and 1 <= atom[1] <= len(args):
+                inst = self.op_form(st, args[atom[1] - 1])
+            elif atom[0] == "len" and isinstance(atom[1], str):
+                for k in range(1, cb.argc + 1):
+                    nm = cb.debug_name(k) or "arg%d" % k
+                    if atom[1] == nm or atom[1].startswith(nm + "."):
+                        ap = op_place(args[k - 1]) if k - 1 < len(args) else None
+                        if ap is None:
+                            break
+                        base = render(self.sym.place(ap))
+                        inst = Form.atom(("len", base + atom[1][len(nm):]))
+                        break
+            if inst is None:
+                return None
+            out = out.add(inst.scale(co))
+        return out
 
     def _closure_checked_add(self, st, clo_op):
         """closure |n| n.checked_add(captured): returns the form of the captured addend."""
